@@ -75,7 +75,8 @@ def gen_txns(rnd):
         elif rnd.random() < .06:
             amt = rnd.choice([1, -1]) * rnd.choice([9.705, 0.004, 99.999, 1.0005, 12.345])      # three-decimal currencies, sub-cent fees
         t = {'amount': amt, 'tags': tags, 'merchant': m, 'category': cat_of[m][0], 'subcategory': cat_of[m][1],
-             'date': datetime(rnd.choice([2024, 2025]), rnd.randint(1, 12), rnd.randint(1, 28)), 'description': m, 'raw_description': desc,
+             'date': (datetime(2024, 2, 29) if rnd.random() < .04 else datetime(rnd.choice([2024, 2025]), 12, 31) if rnd.random() < .04 else
+                      datetime(rnd.choice([2024, 2025]), rnd.randint(1, 12), rnd.randint(1, 28))), 'description': m, 'raw_description': desc,
              'source': rnd.choice(['Amex', 'Chase', 'Amex', 'Src </script>']), 'location': rnd.choice([None, 'WA', 'Seattle, WA'])}
         if rnd.random() < .2:
             t['extra_fields'] = {'items': [rnd.choice(HOSTILE), 'b'], 'n': i, 'who': rnd.choice(HOSTILE)}
@@ -498,10 +499,13 @@ def cli_formats(rec, rnd, tmp, k):
     lenv = {'LC_ALL': 'C', 'LANG': 'C', 'PYTHONUTF8': '0', 'PYTHONCOERCECLOCALE': '0', 'PYTHONIOENCODING': 'utf-8'}
     pl = B.tally(root, 'up', cfg, '-q', '-o', 'c-locale.html', env_extra=lenv)
     pl2 = B.tally(root, 'up', cfg, '-q', '--format', rnd.choice(['json', 'markdown', 'summary']), env_extra=lenv)
-    rec.count('cli_runs', 8)
+    # a narrow and a very wide terminal (COLUMNS): the text summary and the default run that prints it before writing the HTML report
+    pw1 = B.tally(root, 'up', cfg, '--format', 'summary', env_extra={'COLUMNS': ['44', '20', '1', '500'][k % 4], 'LINES': '10'})
+    pw2 = B.tally(root, 'up', cfg, env_extra={'COLUMNS': ['30', '51', '8'][k % 3], 'LINES': '5'})
+    rec.count('cli_runs', 10)
     try:
         for nm, p in (('json', pj), ('markdown', pm), ('html', ph), ('summary', ps), ('html -o <bare file name>', po), ('html -o <folder>/r.html', pn),
-                      ('html under LC_ALL=C', pl), ('text formats under LC_ALL=C', pl2)):
+                      ('html under LC_ALL=C', pl), ('text formats under LC_ALL=C', pl2), ('summary in a narrow / wide terminal', pw1), ('default run in a narrow terminal', pw2)):
             if p.returncode != 0:
                 rec.violation('cli-format-fails:' + nm, f'missing source: {missing}; `up --format {nm} -q` exits {p.returncode}: {(p.stderr or p.stdout)[-200:]!r}', case)
                 return
